@@ -263,6 +263,11 @@ def run_read(case):
             p = tmp.new(b)
             if reader == 'array_fromfile':
                 a = bs.Array(dt)
+                pre = ''
+                if (total + w) % 3 == 0 and total >= w:
+                    # an Array that already holds items: fromfile appends to them
+                    pre = src[:w] * 2
+                    a = bs.Array(dt, bs.Bits(bin=pre))
                 with open(p, 'rb') as fh:
                     r = attempt(a.fromfile, fh, n_items)
                 avail = total // w
@@ -271,7 +276,8 @@ def run_read(case):
                     require(is_raised(r, EOFError), 'fromfile asked for more items than the file holds must raise EOFError', got=r)
                 else:
                     require(not is_raised(r), 'fromfile raised', got=r)
-                require(a.data.bin == src[:want_items * w], 'Array.fromfile did not read exactly the requested items', got=len(a.data), expected=want_items * w, w=w)
+                require(a.data.bin == pre + src[:want_items * w], 'Array.fromfile did not append exactly the requested items to what the Array held', got=len(a.data),
+                        expected=len(pre) + want_items * w, w=w, preloaded=bool(pre))
                 a2 = bs.Array(dt)
                 with open(p, 'rb') as fh:
                     a2.fromfile(fh)
